@@ -1182,6 +1182,11 @@ class Transformer:
         year (Jan 1). That situation is not supported by BasicZoneSpecifier. On
         the other hand, a transition at the end of the year (Dec 31) is
         supported by BasicZoneSpecifier.
+
+        BasicZoneProcessor uses the previous year for the whole of Jan 1 in UTC,
+        and a transition on Jan 2 local time falls on Jan 1 UTC in zones east of
+        Greenwich. So a rule which can resolve to Jan 2 ('2', 'Sun>=2',
+        'Sun<=8') is removed as well.
         """
         results: RulesMap = {}
         removed_policies: CommentsCollection = {}
@@ -1193,12 +1198,13 @@ class Transformer:
                 month = rule['inMonth']
                 on_day_of_month = rule['onDayOfMonth']
                 if from_year > MIN_YEAR and to_year > MIN_YEAR:
-                    if month == 1 and on_day_of_month == 1:
+                    if month == 1 and on_day_of_month in (1, 2, -8):
                         valid = False
                         _add_reason(
                             removed_policies, name,
                             "Transition in early year (%04d-%02d-%02d)" %
-                            (from_year, month, on_day_of_month))
+                            (from_year, month, on_day_of_month
+                             if on_day_of_month > 0 else 2))
                         break
             if valid:
                 results[name] = rules
